@@ -141,9 +141,10 @@ func (r *NetconfResponse) Record(b []byte) {
 func (r *NetconfResponse) record1dot0() {
 	b := r.RawResult
 
-	b = bytes.TrimPrefix(b, []byte(xmlHeader))
-	// trim space before trimming suffix because we usually have a trailing newline!
-	b = bytes.TrimSuffix(bytes.TrimSpace(b), []byte(v1Dot0Delim))
+	// trim space before trimming the header and the suffix: we usually have a trailing newline, and
+	// the newline a server sent after the previous message's delimiter may be in front of us
+	b = bytes.TrimPrefix(bytes.TrimSpace(b), []byte(xmlHeader))
+	b = bytes.TrimSuffix(b, []byte(v1Dot0Delim))
 
 	r.Result = string(bytes.TrimSpace(b))
 }
